@@ -130,6 +130,14 @@ func (e *Explorer) Explore(prefix []int) {
 		stack = stack[:len(stack)-1]
 		x := e.runOne(p)
 		if x.Diverged != "" {
+			if DebugNames && e.lastTrace != nil && os.Getenv("VERIF_DEBUG") == "full" {
+				for i := 0; i < len(e.lastTrace) && i < len(p)+2; i++ {
+					fmt.Fprintf(os.Stderr, "P %d: %v chosen=%d\n", i, e.lastTrace[i].Names, e.lastTrace[i].Chosen)
+				}
+				for i := 0; i < len(x.Trace); i++ {
+					fmt.Fprintf(os.Stderr, "R %d: %v chosen=%d\n", i, x.Trace[i].Names, x.Trace[i].Chosen)
+				}
+			}
 			if DebugNames && e.lastTrace != nil {
 				k := len(p) - 1
 				for i := k - 3; i <= k && i < len(e.lastTrace); i++ {
